@@ -20,6 +20,9 @@ package api
 //     x                           the client aborts the request
 //     f                           the client reads until the handler ends the request (used after
 //                                 the message that ends the client's session)
+//     A:<k>                       the lagging node (node 1) applies the next k entries of the log (0 = all);
+//                                 "o@<c>/1" opens client c's stream on node 1; r:0 of a client connected to
+//                                 node 1 lets node 1 catch up completely (the request is open meanwhile)
 //   o r x f may carry "@<c>": the step of client c, which reads for session c through its own
 //   request (default c = 1); several clients have their streams open at the same time.
 //   result: gm {m=<batch id|->|D=<batch id|->|o=ok|o=http<code>|r=<msgs|->[@<marker id>][!timeout|!closed]|x=ok|f=<msgs|->[!timeout]}*
@@ -142,91 +145,153 @@ func verifGmShow(msgs []robust.Message) string {
 	return strings.Join(s, ",")
 }
 
-func verifGmRunCase(f []string, tmp string, node *raft.Raft) (res string) {
+type verifGmNode struct {
+	srv *ircserver.IRCServer
+	o   *outputstream.OutputStream
+	h   *HTTP
+}
+
+type verifGmEntry struct {
+	typ    robust.Type // IRCFromClient, DeleteSession; Ping = marker batch
+	sess   uint64
+	data   string
+	id     uint64
+	client uint64 // marker: the client it is addressed to
+}
+
+func verifGmDumpBatch(msgs []outputstream.Message) string {
+	var ms []string
+	for _, m := range msgs {
+		var rc []uint64
+		for k, v := range m.InterestingFor {
+			if v {
+				rc = append(rc, k)
+			}
+		}
+		sort.Slice(rc, func(i, j int) bool { return rc[i] < rc[j] })
+		rs := "-"
+		if len(rc) > 0 {
+			var s []string
+			for _, r := range rc {
+				s = append(s, strconv.FormatUint(r, 10))
+			}
+			rs = strings.Join(s, "+")
+		}
+		d := "-"
+		if m.Data != "" {
+			d = hex.EncodeToString([]byte(m.Data))
+		}
+		ms = append(ms, fmt.Sprintf("%d/%s/%s", m.Id.Reply, d, rs))
+	}
+	return fmt.Sprintf("%d=%s", msgs[0].Id.Id, strings.Join(ms, ","))
+}
+
+func verifGmRunCase(f []string, tmp string, raftNode *raft.Raft) (res string) {
 	defer func() {
 		if e := recover(); e != nil {
 			res = "gm harness-error:" + strings.ReplaceAll(fmt.Sprint(e), " ", "_")
 		}
 	}()
 	nsess, _ := strconv.Atoi(f[1])
-	srv := ircserver.NewIRCServer("verif.net", time.Unix(0, 1481144012969203276))
-	srv.Config.IRC.Operators = []config.IRCOp{{Name: "root", Password: "secret"}}
-	o, err := outputstream.NewOutputStream(tmp)
-	if err != nil {
-		return "gm harness-error:" + err.Error()
-	}
-	defer o.Close()
-	h := NewHTTP(srv, node, nil, o, nil, "verif.net", "", tmp, "", true, 3)
-	next := uint64(1)
-	for k := 0; k < nsess; k++ {
-		id := robust.Id{Id: next}
-		next++
-		if err := srv.CreateSession(id, "auth", time.Unix(0, 1481144012969203276)); err != nil {
-			return "gm harness-error:" + err.Error()
+	var nodes []*verifGmNode
+	defer func() {
+		for _, n := range nodes {
+			n.o.Close()
 		}
-		srv.SetLastProcessed(id)
+	}()
+	// node(k): node 0 applies every entry at once; node 1 is a node that lags (it applies the same
+	// log later, step A) - the same sessions exist on it from the start
+	node := func(k int) *verifGmNode {
+		for len(nodes) <= k {
+			srv := ircserver.NewIRCServer("verif.net", time.Unix(0, 1481144012969203276))
+			srv.Config.IRC.Operators = []config.IRCOp{{Name: "root", Password: "secret"}}
+			srv.Config.IRC.Services = []config.Service{{Password: "mypass"}}
+			o, err := outputstream.NewOutputStream(tmp)
+			if err != nil {
+				panic(err)
+			}
+			for s := 1; s <= nsess; s++ {
+				id := robust.Id{Id: uint64(s)}
+				if err := srv.CreateSession(id, "auth", time.Unix(0, 1481144012969203276)); err != nil {
+					panic(err)
+				}
+				srv.SetLastProcessed(id)
+			}
+			nodes = append(nodes, &verifGmNode{srv: srv, o: o, h: NewHTTP(srv, raftNode, nil, o, nil, "verif.net", "", tmp, "", true, 3)})
+		}
+		return nodes[k]
 	}
+	node(0)
+	next := uint64(nsess + 1)
 	var dump []string
-	record := func(msgs []outputstream.Message) {
-		var ms []string
-		for _, m := range msgs {
-			var rc []uint64
-			for k, v := range m.InterestingFor {
-				if v {
-					rc = append(rc, k)
-				}
+	dumpByID := map[uint64]string{}
+	var logEntries []verifGmEntry
+	applied1 := 0 // entries node 1 has applied
+	// what FSM.applyRobustMessage does for IRCFromClient / DeleteSession; returns the batch ("" = none)
+	applyOn := func(n *verifGmNode, e verifGmEntry) string {
+		if e.typ == robust.Ping {
+			marker := []outputstream.Message{{Id: robust.Id{Id: e.id, Reply: 1}, Data: fmt.Sprintf("MARK %d", e.id), InterestingFor: map[uint64]bool{e.client: true}}}
+			if err := n.o.Add(marker); err != nil {
+				panic(err)
 			}
-			sort.Slice(rc, func(i, j int) bool { return rc[i] < rc[j] })
-			rs := "-"
-			if len(rc) > 0 {
-				var s []string
-				for _, r := range rc {
-					s = append(s, strconv.FormatUint(r, 10))
-				}
-				rs = strings.Join(s, "+")
-			}
-			d := "-"
-			if m.Data != "" {
-				d = hex.EncodeToString([]byte(m.Data))
-			}
-			ms = append(ms, fmt.Sprintf("%d/%s/%s", m.Id.Reply, d, rs))
+			return verifGmDumpBatch(marker)
 		}
-		dump = append(dump, fmt.Sprintf("%d=%s", msgs[0].Id.Id, strings.Join(ms, ",")))
-	}
-	// what FSM.applyRobustMessage does for IRCFromClient / DeleteSession
-	apply := func(typ robust.Type, sess uint64, data string) string {
-		id := next
-		next++
-		msg := &robust.Message{Id: robust.Id{Id: id}, Session: robust.Id{Id: sess}, Type: typ, Data: data}
-		if _, err := srv.GetSession(msg.Session); err != nil {
-			return "-"
+		msg := &robust.Message{Id: robust.Id{Id: e.id}, Session: robust.Id{Id: e.sess}, Type: e.typ, Data: e.data}
+		if _, err := n.srv.GetSession(msg.Session); err != nil {
+			return ""
 		}
-		line := data
-		if typ == robust.DeleteSession {
-			line = "QUIT :" + data
+		line := e.data
+		if e.typ == robust.DeleteSession {
+			line = "QUIT :" + e.data
 		}
-		reply := srv.ProcessMessage(msg, irc.ParseMessage(line))
-		srv.SetLastProcessed(robust.Id{Id: id})
-		tok := "-"
+		reply := n.srv.ProcessMessage(msg, irc.ParseMessage(line))
+		n.srv.SetLastProcessed(robust.Id{Id: e.id})
+		d := ""
 		if len(reply.Messages) > 0 {
 			converted := make([]outputstream.Message, len(reply.Messages))
 			for idx, m := range reply.Messages {
 				converted[idx] = outputstream.Message{Id: m.Id, Data: m.Data, InterestingFor: m.InterestingFor}
 			}
-			if err := o.Add(converted); err != nil {
+			if err := n.o.Add(converted); err != nil {
 				panic(err)
 			}
-			record(converted)
-			tok = strconv.FormatUint(id, 10)
+			d = verifGmDumpBatch(converted)
 		}
-		srv.MaybeDeleteSession(msg.Session)
-		return tok
+		n.srv.MaybeDeleteSession(msg.Session)
+		return d
+	}
+	diverged := false
+	issue := func(e verifGmEntry) string {
+		e.id = next
+		next++
+		logEntries = append(logEntries, e)
+		d := applyOn(nodes[0], e)
+		if d == "" {
+			return "-"
+		}
+		dump = append(dump, d)
+		dumpByID[e.id] = d
+		return strconv.FormatUint(e.id, 10)
+	}
+	catchUp := func(k int) int {
+		n := node(1)
+		cnt := 0
+		for applied1 < len(logEntries) && (k == 0 || cnt < k) {
+			e := logEntries[applied1]
+			applied1++
+			cnt++
+			if d := applyOn(n, e); d != dumpByID[e.id] {
+				diverged = true
+			}
+		}
+		return cnt
 	}
 
 	out := []string{"gm"}
 	// one GetMessages client per session; client c reads for session c
 	type client struct {
 		last        string
+		node        int
 		w           *verifGmWriter
 		cancel      context.CancelFunc
 		done        chan struct{}
@@ -282,9 +347,13 @@ func verifGmRunCase(f []string, tmp string, node *raft.Raft) (res string) {
 	}
 
 	for _, tok := range f[2:] {
-		c := uint64(1)
+		c, nd := uint64(1), 0
 		if at := strings.LastIndex(tok, "@"); at >= 0 {
-			c, _ = strconv.ParseUint(tok[at+1:], 10, 64)
+			cn := strings.SplitN(tok[at+1:], "/", 2)
+			c, _ = strconv.ParseUint(cn[0], 10, 64)
+			if len(cn) > 1 {
+				nd, _ = strconv.Atoi(cn[1])
+			}
 			tok = tok[:at]
 		}
 		p := strings.SplitN(tok, ":", 3)
@@ -296,16 +365,21 @@ func verifGmRunCase(f []string, tmp string, node *raft.Raft) (res string) {
 			if p[0] == "D" {
 				typ = robust.DeleteSession
 			}
-			out = append(out, p[0]+"="+apply(typ, s, string(data)))
+			out = append(out, p[0]+"="+issue(verifGmEntry{typ: typ, sess: s, data: string(data)}))
+		case "A":
+			k, _ := strconv.Atoi(p[1])
+			out = append(out, fmt.Sprintf("A=%d", catchUp(k)))
 		case "o":
 			x := cl(c)
 			closeConn(x)
+			x.node = nd
 			ctx, cf := context.WithCancel(context.Background())
 			x.cancel = cf
 			x.w = &verifGmWriter{ctx: ctx, hdr: http.Header{}, lines: make(chan verifGmLine), status: make(chan int, 1)}
 			x.done = make(chan struct{})
 			req := httptest.NewRequest("GET", fmt.Sprintf("/robustirc/v1/%d/messages?lastseen=%s", c, x.last), nil).WithContext(ctx)
 			req.Header.Set("X-Session-Auth", "auth")
+			h := node(nd).h
 			go func(w *verifGmWriter, done chan struct{}) {
 				defer close(done)
 				defer func() { recover() }()
@@ -331,13 +405,11 @@ func verifGmRunCase(f []string, tmp string, node *raft.Raft) (res string) {
 				out = append(out, "r="+verifGmShow(got)+mark)
 				break
 			}
-			id := next
-			next++
-			marker := []outputstream.Message{{Id: robust.Id{Id: id, Reply: 1}, Data: fmt.Sprintf("MARK %d", id), InterestingFor: map[uint64]bool{c: true}}}
-			if err := o.Add(marker); err != nil {
-				panic(err)
+			ids := issue(verifGmEntry{typ: robust.Ping, client: c})
+			id, _ := strconv.ParseUint(ids, 10, 64)
+			if x.node == 1 {
+				catchUp(0) // the lagging node catches up (incl. the marker) while the request is open
 			}
-			record(marker)
 			got, mark := read(x, func(m robust.Message, _ int) bool { return m.Id.Id == id })
 			if mark == "" {
 				// the handler finishes the marker batch (its session / partition checks) and then
@@ -370,21 +442,18 @@ func verifGmRunCase(f []string, tmp string, node *raft.Raft) (res string) {
 	for _, b := range dump {
 		eq := strings.Index(b, "=")
 		id, _ := strconv.ParseUint(b[:eq], 10, 64)
-		msgs, ok := o.Get(robust.Id{Id: id})
+		msgs, ok := nodes[0].o.Get(robust.Id{Id: id})
 		now := "missing"
 		if ok {
-			saved := dump
-			dump = nil
-			record(msgs)
-			if len(dump) == 1 {
-				now = dump[0]
-			}
-			dump = saved
+			now = verifGmDumpBatch(msgs)
 		}
 		if now != b {
 			changed = fmt.Sprintf("changed:%d", id)
 			break
 		}
+	}
+	if diverged {
+		changed = "diverged" // the lagging node produced a different stream from the same log
 	}
 	d := "-"
 	if len(dump) > 0 {
